@@ -157,6 +157,16 @@ class World:
                 done = []
                 for name in op[1]:
                     before = set(m.__dict__)
+                    if name == 'all_other':
+                        # str and every untracked derived attribute the search looks at; failures are swallowed one by one
+                        for x in ('str',) + UNTRACKED_DERIVED:
+                            try:
+                                str(m) if x == 'str' else getattr(m, x)
+                            except Exception:  # noqa
+                                pass
+                        if any(k2 not in TRACKED for k2 in m.__dict__):
+                            done.append(name)
+                        continue
                     try:
                         if name == 'str':
                             str(m)
@@ -166,9 +176,8 @@ class World:
                     except Exception:  # noqa
                         if name == 'str' and any(k2 not in TRACKED for k2 in set(m.__dict__) - before):
                             done.append(name)
-                        self.effective = ('read', tuple(done))
                         self.read_raised += 1
-                        break
+                self.effective = ('read', tuple(done))
             elif k == 'add_atom':
                 from chython.periodictable import Element
                 a = Element.from_atomic_number(op[1])(charge=op[2], is_radical=op[3])
@@ -215,7 +224,10 @@ class World:
                 n, mm, bo, dch = op[1:]
                 if n not in m._atoms or mm not in m._atoms:
                     raise KeyError(n)
-                m._Standardize__standardize([(StubPattern(n, mm), {1: (dch, None)}, ((1, 2, bo),), [], False)], True)
+                # what Standardize.standardize() does with one rule that matches once
+                log, fixed = m._Standardize__standardize([(StubPattern(n, mm), {1: (dch, None)}, ((1, 2, bo),), [], False)], True)
+                if fixed:
+                    m.fix_stereo()
             elif k == 'set_name':
                 m.name = f'n{op[1]}'
             elif k == 'set_meta':
@@ -277,7 +289,7 @@ def op_term(op):
 def model_ops(op):
     """the model operations one harness operation stands for (a read of several attributes = several ORead)"""
     if op[0] == 'read':
-        return ['ORead ' + (OTHER if name == 'str' else TRACKED[name]) for name in op[1]]
+        return ['ORead ' + (OTHER if name in ('str', 'all_other') else TRACKED[name]) for name in op[1]]
     return [op_term(op)]
 
 
@@ -420,6 +432,21 @@ def fresh_world(cur, other):
     return World(make(cur), [make(other)])
 
 
+def adjacency_ok(m):
+    """keys of _bonds == keys of _atoms, symmetric, both directions hold the same object, no loops"""
+    if list(m._bonds) != list(m._atoms):
+        return False
+    for n, row in m._bonds.items():
+        for k, bd in row.items():
+            if k == n or k not in m._bonds or n not in m._bonds[k] or m._bonds[k][n] is not bd:
+                return False
+    return True
+
+
+def corrupt(world):
+    return not all(adjacency_ok(m) for m in world.live())
+
+
 def fingerprint(world):
     """cheap complete picture of the stored state of every live molecule (no recalculation)"""
     out = []
@@ -431,20 +458,28 @@ def fingerprint(world):
     return out
 
 
-def run_ops(world, ops):
-    """apply the operations; returns (exception names, strict, effective operations) - strict is False once an exception was
-    raised after partial effects (what is stale then depends on the iteration order inside the failed call)"""
+def run_ops(world, ops, hook=None):
+    """apply the operations; returns (exception names, strict, effective operations, dead) - strict is False once an exception
+    was raised after partial effects (what is stale then depends on the iteration order inside the failed call); dead = some
+    PROPER prefix left a molecule with a broken adjacency (nothing is compared on such objects beyond that step)"""
     exns = []
     eff = []
     strict = True
-    for op in ops:
+    dead = False
+    for i, op in enumerate(ops):
+        if not strict and not dead and corrupt(world):
+            dead = True
         before = fingerprint(world)
+        if hook:
+            hook.before(world, i, op)
         e = world.apply(op)
         if e is not None and strict and fingerprint(world) != before:
             strict = False
+        if hook:
+            hook.after(world, i, op, e)
         exns.append(e)
         eff.append(world.effective)
-    return exns, strict, eff
+    return exns, strict, eff, dead
 
 
 def exn_term(e):
@@ -468,8 +503,7 @@ class Corr:
         mops = [t for op in ops for t in model_ops(op)]
         mexn = []
         for op, e in zip(ops, exns):
-            k = len(model_ops(op))
-            mexn += [None] * (k - 1) + [e]       # reads never raise here
+            mexn += [None] * len(model_ops(op)) if op[0] == 'read' else [e]       # the model has no failing reads
         self.cases.append(f'check_case cfg0 {seedname} {lst(mops)} {lst(mexn, exn_term)} {b(st)} {obs_term(obs[0])} '
                           f'{lst(obs[1:], obs_term)} {lst(identity_partition(world), zraw)}')
         self.meta.append((tag, ops, exns))
@@ -494,23 +528,630 @@ def exhaustive_sequences(ck, si, alphabet, depth, depth_extra):
     return list(dict.fromkeys(seqs))
 
 
-def corr_exhaustive(cr, depth, depth_extra):
+def explore_exhaustive(cr, depth, depth_extra, do_search=True):
+    """every sequence is run ONCE on the real code; the model is compared on its final state (all prefixes are sequences of
+    their own) and the search oracles look at the same run"""
     ck = cr.ck
     for si, (cur, other, alphabet) in enumerate(SEEDS):
         name = f'seed{si}'
         w0 = fresh_world(cur, other)
         cr.seed_def(name, w0.cur, w0.others[0])
-        for ops in exhaustive_sequences(ck, si, alphabet, depth, depth_extra):
+        status = {}
+
+        def visit(ops):
+            if ops in status:
+                return
+            if ops:
+                visit(ops[:-1])
             w = fresh_world(cur, other)
-            exns, strict, eff = run_ops(w, ops)
-            cr.final_case(name, eff, exns, strict, w, name)
+            hook = SearchHook() if do_search else None
+            exns, strict, eff, dead = run_ops(w, ops, hook)
             ck.count('corr:read-raised', w.read_raised)
+            if dead:
+                ck.count('corr:skipped-after-broken-adjacency')
+                status[ops] = 'downstream'
+                return
+            cr.final_case(name, eff, exns, strict, w, f'{name}:{cur}|{other}')
             ck.case((name, ops), nontrivial=True)
             ck.count(f'corr:exhaustive:len={len(ops)}')
             for e in exns:
                 ck.count('corr:step:' + (e or 'ok'))
+            if not do_search:
+                status[ops] = 'clean'
+                return
+            if ops and status[ops[:-1]] != 'clean':
+                status[ops] = 'downstream'
+                ck.count('search:downstream-of-an-earlier-failure')
+                return
+            hf = [f for f in hook.findings if f[0] == len(ops) - 1]
+            ff = final_findings(w, hook)
+            if hf or ff:
+                status[ops] = 'bad'
+                report(ck, cur, other, list(ops), hf, ff, 'exhaustive')
+            else:
+                status[ops] = 'clean'
+                ck.count('search:clean-sequences')
+
+        for ops in exhaustive_sequences(ck, si, alphabet, depth, depth_extra):
+            visit(ops)
 
 
-def corr_run(cr, name='c13'):
+def corr_run(cr, name='c13', shard=300):
     extra = f'Import ListNotations.\nOpen Scope Z_scope.\nDefinition cfg0 := {MODEL_CFG}.\n' + '\n'.join(cr.seed_defs)
-    return coqcases.run_cases(name, 'Cache', cr.cases, extra=extra, shard=300)
+    return coqcases.run_cases(name, 'Cache', cr.cases, extra=extra, shard=shard)
+
+
+# ---- random long sequences on corpus molecules
+
+def in_transaction(m):
+    try:
+        return m._backup is not None
+    except AttributeError:
+        return False
+
+
+def random_op(rng, world):
+    """a mostly-valid operation for the current state (about one in eight has a malformed argument)"""
+    m = world.cur
+    atoms = list(m._atoms)
+    bonds = [(n, k) for n, row in m._bonds.items() for k in row]
+    bad = rng.random() < 0.12
+    kinds = ['read', 'read', 'add_atom', 'add_bond', 'add_bond', 'delete_bond', 'delete_bond', 'delete_atom', 'remap', 'union', 'copy', 'sub',
+             'swap', 'flush', 'enter', 'exit_ok', 'exit_exn', 'set_charge', 'set_radical', 'patch', 'patch', 'set_name', 'set_meta']
+    while True:
+        k = rng.choice(kinds)
+        if k in ('copy', 'sub') and len(world.others) >= 3:
+            continue
+        if k in ('exit_ok', 'exit_exn') and not in_transaction(m) and rng.random() < 0.8:
+            continue
+        if k in ('set_charge', 'set_radical') and not in_transaction(m) and rng.random() < 0.7:
+            continue
+        if k == 'enter' and in_transaction(m) and rng.random() < 0.8:
+            continue
+        if k in ('delete_bond',) and not bonds and not bad:
+            continue
+        if k in ('delete_atom', 'sub', 'set_charge', 'set_radical', 'patch', 'add_bond', 'remap') and len(atoms) < 2:
+            continue
+        break
+    if k == 'read':
+        names = rng.sample(sorted(TRACKED), rng.randint(1, 3))
+        if rng.random() < 0.5:
+            names = ['atoms_rings_sizes', 'str'] + names
+        return ('read', tuple(names))
+    if k == 'add_atom':
+        n = None
+        if rng.random() < 0.4:
+            n = rng.choice(atoms) if bad and atoms else max(atoms, default=0) + rng.randint(1, 4)
+        return ('add_atom', rng.choice([6, 6, 7, 8, 9, 16, 17, 1]), rng.choice([0, 0, 0, 1, -1]), rng.random() < 0.1, n)
+    if k == 'add_bond':
+        if bad:
+            return rng.choice([('add_bond', atoms[0], atoms[0], 1), ('add_bond', atoms[0], max(atoms) + 5, 1),
+                               ('add_bond', atoms[0], atoms[1], 7)] + ([('add_bond',) + bonds[0] + (1,)] if bonds else []))
+        for _ in range(20):
+            a, c = rng.sample(atoms, 2)
+            if c not in m._bonds.get(a, {}):
+                return ('add_bond', a, c, rng.choice([1, 1, 1, 2, 3, 8, 8]))
+        return ('add_bond', atoms[0], atoms[1], 1)
+    if k == 'delete_bond':
+        if bad or not bonds:
+            return ('delete_bond', atoms[0] if atoms else 1, max(atoms, default=0) + 3)
+        return ('delete_bond',) + rng.choice(bonds)
+    if k == 'delete_atom':
+        return ('delete_atom', max(atoms) + 2 if bad else rng.choice(atoms))
+    if k == 'remap':
+        if bad:
+            return ('remap', ((atoms[0], atoms[1]),))
+        sel = rng.sample(atoms, rng.randint(1, min(4, len(atoms))))
+        if rng.random() < 0.5:
+            tgt = sel[1:] + sel[:1]                      # a cycle
+        else:
+            tgt = [max(atoms) + 1 + i for i in range(len(sel))]
+        return ('remap', tuple(zip(sel, tgt)))
+    if k == 'union':
+        return ('union', rng.random() < 0.85, rng.random() < 0.4)
+    if k == 'sub':
+        if bad:
+            return ('sub', rng.choice([(), (atoms[0], max(atoms) + 9)]))
+        start = rng.choice(atoms)
+        sel = [start]
+        for _ in range(rng.randint(0, 6)):
+            nb = [x for y in sel for x in m._bonds.get(y, {}) if x not in sel]
+            if not nb:
+                break
+            sel.append(rng.choice(nb))
+        if rng.random() < 0.3:
+            sel.append(rng.choice(atoms))
+        return ('sub', tuple(dict.fromkeys(sel)))
+    if k == 'flush':
+        return ('flush', rng.random() < 0.5, rng.random() < 0.5)
+    if k == 'set_charge':
+        return ('set_charge', max(atoms) + 1 if bad else rng.choice(atoms), 5 if bad and rng.random() < 0.5 else rng.choice([-1, 0, 1, 2]))
+    if k == 'set_radical':
+        return ('set_radical', rng.choice(atoms), rng.random() < 0.5)
+    if k == 'patch':
+        if bad:
+            return ('patch', atoms[0], max(atoms) + 1, 1, 0)
+        if bonds and rng.random() < 0.75:
+            a, c = rng.choice(bonds)
+            return ('patch', a, c, rng.choice([1, 2, 2, 3, 8]), rng.choice([0, 0, 1, -1]))
+        a, c = rng.sample(atoms, 2)
+        return ('patch', a, c, rng.choice([1, 2, 8]), rng.choice([0, 0, 1]))
+    if k == 'set_name':
+        return ('set_name', rng.randint(0, 9))
+    if k == 'set_meta':
+        return ('set_meta', rng.randint(0, 3), rng.randint(0, 9))
+    return (k,)
+
+
+def corpus_pool(ck, n, max_atoms=22):
+    from chython import smiles
+    out = []
+    for smi in corpus.sample(corpus.lipo(), 40 * n, ck.seed, 'c13'):
+        if len(out) >= n:
+            break
+        if len(smi) > 45:
+            continue
+        try:
+            m = smiles(smi)
+            if len(m) > max_atoms:
+                continue
+            if any(bd._order == 4 for *_, bd in m.bonds()):
+                m.kekule()
+            if any(bd._order == 4 for *_, bd in m.bonds()) or any(a.implicit_hydrogens is None for _, a in m.atoms()):
+                continue
+        except Exception:  # noqa
+            continue
+        out.append(smi)
+    return out
+
+
+def step_term(mops, mexn, strict, obs, ids):
+    return (f'(mkStep {lst(mops)} {lst(mexn, exn_term)} {b(strict)} {obs_term(obs[0])} {lst(obs[1:], obs_term)} {lst(ids, zraw)})')
+
+
+def explore_random(cr, nseq, length, do_search=True):
+    ck = cr.ck
+    rng = random.Random(f'{ck.seed}:c13r')
+    pool = corpus_pool(ck, nseq)
+    others = ['CN', 'O', 'CC(=O)O', '[Na+].[Cl-]', 'C1CC1']
+    first = len(cr.cases)
+    for i in range(nseq):
+        smi = pool[i % len(pool)]
+        oth = rng.choice(others)
+        w = fresh_world(smi, oth)
+        hook = SearchHook()
+        name = f'rs{i}'
+        cr.seed_def(name, w.cur, w.others[0])
+        steps = []
+        strict = True
+        trail = []
+        searching = do_search
+        for j in range(length):
+            if not strict and corrupt(w):
+                ck.count('corr:random:stopped-after-broken-adjacency')
+                break
+            op = random_op(rng, w)
+            before = fingerprint(w)
+            hook.before(w, j, op)
+            e = w.apply(op)
+            if e is not None and strict and fingerprint(w) != before:
+                strict = False
+            hook.after(w, j, op, e)
+            eff = w.effective
+            trail.append((eff, e, op))
+            mops = model_ops(eff)
+            mexn = [None] * len(mops) if eff[0] == 'read' else [e]
+            obs = [observe(m) for m in w.live()]
+            steps.append(step_term(mops, mexn, strict and all(o['strict'] for o in obs), obs, identity_partition(w)))
+            ck.count('corr:random:op=' + op[0])
+            ck.count('corr:step:' + (e or 'ok'))
+            sh = atoms_shared(w)
+            if sh:
+                cr.shared_atoms.append((name, [t[2] for t in trail], sh))
+            if searching:
+                hf = [f for f in hook.findings if f[0] == j]
+                ff = []
+                if not hf and not in_transaction(w.cur) and id(w.cur) not in hook.tainted and adjacency_ok(w.cur) and rng.random() < 0.5:
+                    # look at every derived value of the current molecule; the model is told about these reads
+                    w.apply(READ_ALL)
+                    mops = model_ops(w.effective)
+                    obs = [observe(m) for m in w.live()]
+                    steps.append(step_term(mops, [None] * len(mops), strict and all(o['strict'] for o in obs), obs, identity_partition(w)))
+                    trail.append((w.effective, None, READ_ALL))
+                    ff = [(0, kind, det) for kind, det in full_compare(w.cur)]
+                if hf or ff:
+                    # the first failure of this history: its last operation is the culprit; later ones are downstream
+                    culprit_trail = trail[:-1] if ff else trail        # without the look itself: the oracles read everything anyway
+                    report(ck, smi, oth, [t[2] for t in culprit_trail], hf, ff, 'random')
+                    searching = False
+                else:
+                    ck.count('search:random:clean-steps')
+        if searching:
+            ff = final_findings(w, hook)
+            if ff:
+                report(ck, smi, oth, [t[2] for t in trail], [], ff, 'random (end of history)')
+        ck.count('corr:read-raised', w.read_raised)
+        cr.cases.append(f'check_steps cfg0 {name} {lst(steps)}')
+        cr.meta.append((f'{name}:{smi}|{oth}', [t[0] for t in trail], [t[1] for t in trail]))
+        ck.case((name, smi, tuple(t[0] for t in trail)), nontrivial=True)
+        ck.count(f'corr:random:atoms<={10 * (len(w.cur._atoms) // 10 + 1)}')
+    return first
+
+
+# ---------------------------------------------------------------------------------------------------------------
+# search: property-level oracles on the real code, independent of the model
+
+DERIVED = ('sssr', 'atoms_order', 'brutto', 'molecular_charge', 'molecular_mass', 'is_radical', 'bonds_count', 'connected_components',
+           'rings_count', 'atoms_rings', 'atoms_rings_sizes', 'not_special_connectivity', 'skin_graph', 'aromatic_rings', 'tetrahedrons',
+           'cumulenes', 'stereogenic_tetrahedrons', 'stereogenic_allenes', 'stereogenic_cis_trans', 'chiral_tetrahedrons',
+           'chiral_allenes', 'chiral_cis_trans')
+UNTRACKED_DERIVED = tuple(k for k in DERIVED if k not in TRACKED)
+READ_ALL = ('read', ('atoms_rings_sizes', 'all_other') + tuple(k for k in TRACKED if k != 'atoms_rings_sizes'))
+ATOM_DERIVED = ('_implicit_hydrogens', '_explicit_hydrogens', '_neighbors', '_heteroatoms', '_hybridization', '_ring_sizes', '_in_ring')
+
+
+def deep(m):
+    """everything stored in a molecule except its cache (for rollback / independence comparisons)"""
+    return ([(n, type(a).__name__) + tuple(repr(getattr(a, s, UNSET)) for s in ATOM_SLOTS if s != '_parsed_mapping')
+             for n, a in m._atoms.items()],
+            [(n, [(k, bd._order, getattr(bd, '_in_ring', UNSET), getattr(bd, '_stereo', UNSET)) for k, bd in row.items()])
+             for n, row in m._bonds.items()], m._name, None if m._meta is None else dict(m._meta))
+
+
+def get_str(m):
+    try:
+        return str(m)
+    except Exception as e:  # noqa
+        return ('raises', type(e).__name__)
+
+
+def full_compare(m):
+    """differences between what the molecule reports and what a molecule rebuilt from scratch reports: list of (kind, detail)"""
+    if not adjacency_ok(m):
+        return [('adjacency', 'adjacency is not a symmetric aliased one over the atoms')]
+    r = rebuild(m)
+    out = []
+    for n, a in m._atoms.items():
+        ra = r._atoms[n]
+        for s in ATOM_DERIVED:
+            if getattr(a, s, UNSET) != getattr(ra, s):
+                out.append(('hydrogens' if s == '_implicit_hydrogens' else 'labels', f'atom {n} {s}: {getattr(a, s, UNSET)!r} != {getattr(ra, s)!r}'))
+        if getattr(a, '_stereo', UNSET) != ra._stereo:
+            out.append(('stereo', f'atom {n} stereo label {getattr(a, "_stereo", UNSET)!r} would be {ra._stereo!r} after fix_stereo on a rebuilt molecule'))
+    for n, row in m._bonds.items():
+        for k, bd in row.items():
+            rb = r._bonds[n][k]
+            if getattr(bd, '_in_ring', UNSET) != rb._in_ring and not (not getattr(bd, '_in_ring', UNSET) and not rb._in_ring):
+                out.append(('bond-labels', f'bond {n}-{k} in_ring: {getattr(bd, "_in_ring", UNSET)!r} != {rb._in_ring!r}'))
+            if getattr(bd, '_stereo', UNSET) != rb._stereo:
+                out.append(('stereo', f'bond {n}-{k} stereo label {getattr(bd, "_stereo", UNSET)!r} != {rb._stereo!r}'))
+    a, c = get_str(m), get_str(r)
+    if a != c:
+        out.append(('cache', f'str: {a!r} != {c!r}'))
+    for key in DERIVED:
+        a, c = safe_get(m, key), safe_get(r, key)
+        if a != c:
+            out.append(('cache', f'{key}: {a!r} != {c!r}'))
+    return out
+
+
+def expected_exception(world, op):
+    """exception class the operation must raise according to its contract, None if it must succeed, '*' if unspecified"""
+    m = world.cur
+    k = op[0]
+    atoms = m._atoms
+    bonded = lambda x, y: x in m._bonds and y in m._bonds[x]
+    if k == 'read':
+        return '*' if in_transaction(m) or any(getattr(a, '_implicit_hydrogens', None) is None for a in atoms.values()) else None
+    if k == 'add_atom':
+        return 'ValueError' if op[4] in atoms else None
+    if k == 'add_bond':
+        if op[3] not in (1, 2, 3, 4, 8) or op[1] == op[2]:
+            return 'ValueError'
+        if op[1] not in atoms or op[2] not in atoms:
+            return 'KeyError'
+        return 'ValueError' if bonded(op[1], op[2]) else None
+    if k == 'delete_atom':
+        return None if op[1] in atoms else 'KeyError'
+    if k == 'delete_bond':
+        return None if bonded(op[1], op[2]) else 'KeyError'
+    if k == 'remap':
+        mp = dict(op[1])
+        bad = len(mp) != len(set(mp.values())) or not (atoms.keys() - mp.keys()).isdisjoint(mp.values())
+        return 'ValueError' if bad else None
+    if k in ('union', 'copy', 'enter', 'sub') and (in_transaction(m) or (k == 'union' and in_transaction(world.others[0]))):
+        return '*'       # objects made from the intermediate state of an open transaction: outside the contract
+    if k == 'union':
+        return 'ValueError' if not op[1] and atoms.keys() & world.others[0]._atoms.keys() else None
+    if k == 'sub':
+        return 'ValueError' if not op[1] or set(op[1]) - atoms.keys() else None
+    if k == 'set_charge':
+        return 'KeyError' if op[1] not in atoms else ('ValueError' if abs(op[2]) > 4 else None)
+    if k == 'set_radical':
+        return None if op[1] in atoms else 'KeyError'
+    if k == 'patch':
+        return None if op[1] in atoms and op[2] in atoms else 'KeyError'
+    if k == 'exit_exn':
+        return None if in_transaction(m) else '*'      # __exit__ without __enter__ is outside the contract
+    return None
+
+
+class SearchHook:
+    """watches one run: unexpected exceptions, independence of the other live molecules, exact rollback"""
+
+    def __init__(self):
+        self.findings = []      # (step index, kind, detail)
+        self.txn = {}           # id(mol) -> deep() at __enter__
+        self.origin = {}        # id(mol) -> how the object was made
+        self.tainted = set()    # molecules whose coherence is the caller's duty (setter outside a transaction, made inside one)
+
+    def before(self, world, i, op):
+        if op[0] in ('set_charge', 'set_radical') and not in_transaction(world.cur):
+            # "Make sure to flush cache and recalculate hydrogens count and stereo. Or use context manager": the caller's duty
+            self.tainted.add(id(world.cur))
+        self.expect = expected_exception(world, op)
+        self.cur = world.cur
+        self.watch = [(m, deep(m)) for m in world.live() if m is not world.cur]
+        self.n_others = len(world.others)
+        self.pre_changed = repr(getattr(world.cur, '_changed', UNSET))
+        self.pre_slots = (hasattr(world.cur, '_changed'), hasattr(world.cur, '_backup'))
+        if op[0] == 'exit_exn' and in_transaction(world.cur):
+            self.rollback_to = self.txn.get(id(world.cur))
+        else:
+            self.rollback_to = None
+
+    def after(self, world, i, op, e):
+        m = self.cur
+        if self.expect != '*' and e != self.expect:
+            self.findings.append((i, 'raises', f'{op} raised {e}, contract says {self.expect}; _changed before = {self.pre_changed}; '
+                                              f'slots set (_changed, _backup) = {self.pre_slots}; object made by {self.origin.get(id(m), "reader")}'))
+        for x, d in self.watch:
+            if deep(x) != d:
+                self.findings.append((i, 'independence', f'{op} on one molecule changed another live molecule (made by {self.origin.get(id(x), "reader")})'))
+        if op[0] in ('copy', 'sub') or (op[0] == 'union' and op[2]):
+            if e is None and len(world.others) == self.n_others + 1:
+                new = world.others[0]
+                self.origin[id(new)] = {'copy': 'copy', 'sub': 'substructure', 'union': 'union'}[op[0]]
+                if id(m) in self.tainted or in_transaction(m) or (op[0] == 'union' and id(world.others[1]) in self.tainted):
+                    self.tainted.add(id(new))
+                if op[0] == 'copy' and deep(new) != deep(m):
+                    self.findings.append((i, 'copy-differs', 'copy() does not equal its source'))
+        if op[0] == 'union' and not op[2] and world.others and id(world.others[0]) in self.tainted:
+            self.tainted.add(id(m))
+        if op[0] == 'enter' and e is None:
+            self.txn[id(m)] = deep(m)
+        if self.rollback_to is not None and e is None:
+            if deep(m) != self.rollback_to:
+                self.findings.append((i, 'rollback', 'a transaction that raised did not restore the molecule exactly'))
+            try:
+                if m._backup is not None:
+                    self.findings.append((i, 'rollback', '_backup still set after __exit__'))
+            except AttributeError:
+                pass
+
+
+def final_findings(world, hook=None):
+    """the rebuilt-from-scratch comparison of every live molecule that is not inside a transaction"""
+    out = []
+    for j, m in enumerate(world.live()):
+        if hook and id(m) in hook.tainted:
+            continue
+        if in_transaction(m):
+            if not adjacency_ok(m):
+                out.append((j, 'adjacency', 'broken adjacency inside a transaction'))
+            continue
+        out += [(j, kind, det) for kind, det in full_compare(m)]
+    return out
+
+
+# ---- matching a failure to a recorded defect: only when an intervention at exactly that call site removes it
+
+def _set_slots(w):
+    for s in ('_changed', '_backup'):
+        if not hasattr(w.cur, s):
+            setattr(w.cur, s, None)
+
+
+def _reset_changed(w):
+    w.cur._changed = None
+
+
+def _flush(w):
+    w.cur.flush_cache()
+
+
+def _flush_reset(w):
+    w.cur.flush_cache()
+    w.cur._changed = None
+
+
+def _labels(w):
+    w.cur.calc_labels()
+
+
+def attempt(cur, other, ops, pre=None, post=None):
+    """re-run ops with an intervention just before / after the last one; returns the failures that remain at the last step"""
+    w = fresh_world(cur, other)
+    h = SearchHook()
+    run_ops(w, ops[:-1], h)
+    n0 = len(h.findings)
+    if pre:
+        pre(w)
+    run_ops(w, ops[-1:], h)
+    if post:
+        post(w)
+    return h.findings[n0:], final_findings(w, h)
+
+
+def classify(cur, other, ops, hook_findings, final):
+    """ops: minimal failing history (culprit = last operation). Returns the key of the recorded defect this failure is an
+    instance of, or None"""
+    op = ops[-1]
+    k = op[0]
+    clean = lambda r: not r[0] and not r[1]
+    if hook_findings:
+        kinds = {f[1] for f in hook_findings}
+        if kinds != {'raises'}:
+            return None
+        det = hook_findings[0][2]
+        if 'raised AttributeError' in det and ('(False, ' in det or ', False)' in det):
+            if not attempt(cur, other, ops, pre=_set_slots)[0]:
+                origin = det.rsplit('object made by ', 1)[1]
+                return {'copy': 'copy-slots-unset', 'union': 'union-slots-unset', 'substructure': 'substructure-backup-unset'}.get(origin)
+            return None
+        if 'raised KeyError' in det and k == 'exit_ok':
+            return 'exit-ok-changed-dangling' if not attempt(cur, other, ops, pre=_reset_changed)[0] else None
+        if 'raised KeyError' in det and 'exit_exn' in [o[0] for o in ops[:-1]]:
+            return 'exit-exn-changed-stale' if not attempt(cur, other, ops, pre=_reset_changed)[0] else None
+        if 'raised AttributeError' in det and k in ('copy', 'enter', 'union'):
+            w = fresh_world(cur, other)
+            run_ops(w, ops[:-1])
+            special = [bd for row in w.cur._bonds.values() for bd in row.values() if not hasattr(bd, '_in_ring')]
+            if special and all(bd._order == 8 for bd in special) and not attempt(cur, other, ops, pre=_labels)[0]:
+                return 'add_bond-special-no-labels'
+        return None
+    kinds = {f[1] for f in final}
+    if k in ('delete_bond', 'delete_atom') and kinds <= {'cache', 'labels', 'bond-labels', 'stereo'}:
+        return f'{k}-no-flush' if clean(attempt(cur, other, ops, pre=_flush)) else None
+    if k == 'exit_ok':
+        if clean(attempt(cur, other, ops, pre=_flush)):
+            return 'exit-ok-no-flush'
+        if clean(attempt(cur, other, ops, pre=_flush_reset)):
+            return 'txn-setter-untracked'
+        return None
+    if k == 'add_bond' and op[3] == 8 and kinds <= {'bond-labels'}:
+        return 'add_bond-special-no-labels' if clean(attempt(cur, other, ops, post=_labels)) else None
+    return None
+
+
+def replay_sequence(cur, other, ops):
+    """used by replay files: run the operations on the real code and print what the oracles see"""
+    w = fresh_world(cur, other)
+    h = SearchHook()
+    exns = run_ops(w, [tuple(tuple(x) if isinstance(x, list) else x for x in o) for o in ops], h)[0]
+    print('exceptions per step:', exns)
+    for f in h.findings:
+        print('step', f[0], f[1], f[2])
+    for f in final_findings(w, h):
+        print('molecule', f[0], f[1], f[2])
+    print('current molecule:', get_str(w.cur))
+
+
+def report(ck, cur, other, ops, hook_findings, final, where):
+    key = classify(cur, other, ops, hook_findings, final)
+    what = (hook_findings[0][2] if hook_findings else final[0][2])
+    kind = hook_findings[0][1] if hook_findings else final[0][1]
+    ck.count('search:failure:' + (key or 'UNMATCHED:' + kind))
+    if key is None:
+        key = f'{kind}:{cur}|{other}:{ops!r}'
+    ck.counterexample(key, f'{kind}: {what}'[:300], {'current': cur, 'other': other, 'operations': [list(o) for o in ops], 'where': where},
+                      [f[1] + ': ' + f[2] for f in (hook_findings or [])][:5] + [f'mol {f[0]} {f[1]}: {f[2]}' for f in final][:8],
+                      'every derived value equals the one of a molecule rebuilt from scratch; no exception outside the contract; other molecules untouched',
+                      'rebuild-from-scratch / contract / deep comparison of other live molecules',
+                      replay_py=f'from checks import C13\nC13.replay_sequence({cur!r}, {other!r}, {ops!r})')
+    return key
+
+
+def search_stereo_and_reactions(ck):
+    """molecules with stereo labels (fix_stereo after edits), reaction containers (copy independence, flush propagation)"""
+    from chython import smiles
+    seeds = [('C[C@H](F)O', 'CN', [READ_STR, ('delete_atom', 3), ('delete_bond', 2, 4), ('add_bond', 1, 3, 1), ('add_atom', 6, 0, False, None),
+                                   ('enter',), ('exit_ok',), ('exit_exn',), ('set_charge', 4, -1), ('copy',), ('swap',), ('sub', (1, 2, 3, 4))]),
+             ('F/C=C/Cl', 'CN', [READ_STR, ('delete_atom', 1), ('delete_bond', 2, 3), ('patch', 2, 3, 1, 0), ('add_bond', 1, 4, 1),
+                                 ('enter',), ('exit_ok',), ('exit_exn',), ('union', True, False), ('remap', ((1, 4), (4, 1))), ('copy',), ('swap',)])]
+    for cur, other, alphabet in seeds:
+        status = {}
+        for d in range(0, 3):
+            for ops in itertools.product(alphabet, repeat=d):
+                if ops and status[ops[:-1]] != 'clean':
+                    status[ops] = 'downstream'
+                    continue
+                w = fresh_world(cur, other)
+                hook = SearchHook()
+                run_ops(w, ops, hook)
+                hf = [f for f in hook.findings if f[0] == len(ops) - 1]
+                ff = final_findings(w, hook)
+                ck.case(('stereo', cur, ops), nontrivial=True)
+                if hf or ff:
+                    status[ops] = 'bad'
+                    report(ck, cur, other, list(ops), hf, ff, 'stereo seeds')
+                else:
+                    status[ops] = 'clean'
+                    ck.count('search:stereo:clean-sequences')
+    # reactions
+    for rs in ('CC(=O)O.OCC>>CC(=O)OCC.O', 'C=C>[Pt]>CC'):
+        r = smiles(rs)
+        for m in r.molecules():
+            normalise(m)
+        before = [deep(m) for m in r.molecules()]
+        s0 = str(r)
+        c = r.copy()
+        ck.case(('reaction', rs), nontrivial=True)
+        if any(x is y for x, y in zip(c.molecules(), r.molecules())) or [deep(m) for m in c.molecules()] != before or str(c) != s0:
+            ck.counterexample(f'reaction-copy:{rs}', 'ReactionContainer.copy() shares molecules with / differs from its source', {'reaction': rs},
+                              str(c), s0, 'deep comparison', replay_py=f'from chython import smiles\nr = smiles({rs!r}); c = r.copy(); print(r, c)')
+        # editing a molecule of the copy (through a transaction: copies are not editable otherwise, see copy-slots-unset)
+        cm = next(iter(c.molecules()))
+        for s in ('_changed', '_backup'):
+            if not hasattr(cm, s):
+                setattr(cm, s, None)
+        cm.add_atom('N')
+        if [deep(m) for m in r.molecules()] != before:
+            ck.counterexample(f'reaction-copy-independence:{rs}', 'editing a molecule of a reaction copy changed the source reaction', {'reaction': rs},
+                              'source changed', 'source unchanged', 'deep comparison')
+        c.flush_cache()
+        if c.__dict__ or any(m.__dict__ for m in c.molecules()):
+            ck.counterexample(f'reaction-flush:{rs}', 'ReactionContainer.flush_cache() left cached entries', {'reaction': rs},
+                              sorted(c.__dict__), [], 'by construction')
+        if str(c) == s0:
+            ck.counterexample(f'reaction-stale:{rs}', 'reaction string stale after editing a molecule and flush_cache()', {'reaction': rs},
+                              str(c), 'a different string', 'by construction')
+
+
+def run(ck):
+    quick = ck.tier == 'quick'
+    ck.trusted += ['correspondence runner harness/checks/C13.py + harness/coqcases.py (prints observations of live objects as Cache.obs terms)',
+                   'CachedMethods shim harness/boot.py', 'CPython 3.12.1 (object identity via id(), functools.cached_property storing into __dict__)']
+    ck.assumptions += [
+        'coq/model/Cache.v is a hand-written model of Graph/MoleculeContainer mutators, flush_cache variants, fix_structure/calc_labels/'
+        'calc_implicit control flow, copy/substructure/union/remap, __enter__/__exit__ and the patch step of Standardize.__standardize; '
+        f'the implementation is compared with the model configuration {MODEL_CFG!r}',
+        'derived values are modelled as snapshots of what they were computed from; the derive functions themselves (SMILES, SSSR, valence '
+        'rules, stereo perception) are universally quantified in the theorems and are NOT modelled: that their result depends only on the '
+        'view (for the ring family: only on the non-special connectivity) is a hypothesis, exercised by the rebuild-from-scratch search',
+        'atoms are held by value in the model; that atom objects are never shared between live molecules is checked on the implementation '
+        'at every step of the correspondence',
+        'fix_stereo is modelled only through its cache effect; stereo labels after edits, ring marks (_in_ring/_ring_sizes) and reaction '
+        'containers are covered by the search only']
+    ck.extra['rule'] = ('correspondence: every sequence over a 12-operation alphabet up to length 3 (thorough: 4) on 3 seed molecules, plus a pool of 38 '
+                        'malformed / remaining operations at depth 1-2 and sampled at depth 3, plus random state-aware sequences (about 12% malformed '
+                        'arguments) on Kekule forms of corpus molecules compared after every step; every case is a distinct history and is '
+                        'non-trivial (it compares atoms, bonds, cached keys, _changed, _backup, staleness, identity partition). search: the same runs, '
+                        'compared with a molecule rebuilt from scratch after every history (random: after every step), plus stereo seeds and reactions')
+    proved = common.standard_proof_steps(ck)
+    cr = Corr(ck)
+    explore_exhaustive(cr, 3 if quick else 4, 3)
+    n_ex = len(cr.cases)
+    ok1, failing1, log1 = corr_run(cr, 'c13')
+    cr2 = Corr(ck)
+    explore_random(cr2, 50 if quick else 1500, 12 if quick else 25)
+    ok2, failing2, log2 = corr_run(cr2, 'c13r', shard=7 if quick else 25)
+    ok = ok1 and ok2
+    bad = [cr.meta[i] for i in failing1] + [cr2.meta[i] for i in failing2]
+    ck.oblige(f'correspondence: real MoleculeContainer == Cache model ({MODEL_CFG}) on {n_ex} exhaustive histories and {len(cr2.cases)} random ones',
+              ok and not bad, 'correspondence', (log1 + log2)[-1500:] or repr(bad[:5]))
+    shared = cr.shared_atoms + cr2.shared_atoms
+    ck.oblige('atom objects are never shared between live molecules (justifies by-value atoms in the model)', not shared, 'correspondence',
+              repr(shared[:3]))
+    ck.extra['correspondence_cases'] = len(cr.cases) + len(cr2.cases)
+    ck.extra['model_cfg'] = MODEL_CFG
+    ck.sample({'model_call': cr.cases[len(cr.cases) // 2][:1500], 'meta': repr(cr.meta[len(cr.meta) // 2])})
+    if cr2.cases:
+        ck.sample({'model_call': cr2.cases[0][:1500], 'meta': repr(cr2.meta[0])[:600]})
+    if not ok or bad:
+        ck.unchecked('correspondence Cache model vs chython MoleculeContainer', (log1 + log2)[-1500:], [repr(x)[:600] for x in bad[:20]])
+    if shared:
+        ck.unchecked('atom objects shared between live molecules', repr(shared[:3]))
+    search_stereo_and_reactions(ck)
+    ck.extra['proved'] = proved
+    ck.extra['tied'] = ok and not bad
